@@ -336,7 +336,7 @@ func TestModelWorkers(t *testing.T) {
 		"rapid: 2..4 worker processes sharing one data directory obey a drawn sequence of 4..24 commands (acquire / release / SIGKILL+respawn / exit-without-release+respawn, biased towards the current holder); every answer is compared with the model 'one holder or none' (acquire succeeds iff nobody holds; after release, kill+reap or exit+reap the lock is free); no timing in the verdict. Non-trivial: the sequence has a contended acquire (must fail) and an acquire right after the holder released or died (must succeed)")
 	base := t.TempDir()
 	defer drainPool()
-	ev.Check(t, rec, 25, 1000, func(rt *rapid.T) {
+	ev.Check(t, rec, 25, 300, func(rt *rapid.T) {
 		c := drawModelCase(rt)
 		if aborted {
 			return
@@ -777,7 +777,7 @@ func TestRacingProcesses(t *testing.T) {
 	rec := ev.New(t, prop, "racing-processes-journal",
 		"rapid: 4..12 racer processes share one data directory and loop acquire / journal BEGIN (CLOCK_MONOTONIC read after acquiring) / hold 0..30 ms / journal END (clock read before releasing) / release; the parent SIGKILLs 0..4 of them (aimed at the current holder or random), journaling KILL before the signal and REAP after wait; oracle: definite-hold intervals [BEGIN,END] and [BEGIN,KILL-sent] pairwise disjoint, after a holder is killed and reaped a survivor acquires within 30 s (re-executed 3 times before reporting), after all are reaped the parent acquires immediately. Non-trivial: a racer was killed while definitely holding and other racers were alive to take over")
 	base := t.TempDir()
-	ev.Check(t, rec, 8, 200, func(rt *rapid.T) {
+	ev.Check(t, rec, 8, 80, func(rt *rapid.T) {
 		c := drawRaceCase(rt)
 		if aborted {
 			return
